@@ -3,12 +3,15 @@ package harness
 import (
 	"bufio"
 	"bytes"
+	"fmt"
 	"io"
 	"strings"
 
 	storetypes "cosmossdk.io/store/types"
 	"github.com/cosmos/cosmos-sdk/runtime"
 	sdk "github.com/cosmos/cosmos-sdk/types"
+
+	"github.com/terra-money/alliance/x/alliance/types"
 )
 
 // clone returns a World on another branch of the state, writing its trace elsewhere.
@@ -59,8 +62,74 @@ func (w *World) ForkGenesis() *World {
 	}
 	w.Ctx = ctxA
 	shadow := w.clone(ctxB, io.Discard)
+	// the re-imported module store, for comparison with the model's re-import of the model state
+	// (records G of the trace; bank / supply / staking are shared with the original branch)
+	for _, l := range shadow.DumpState(ctxB) {
+		var tag int
+		fmt.Sscanf(l, "%d", &tag)
+		if tag <= 10 {
+			w.emit("G %s", l)
+		}
+	}
+	w.emit("GE")
+	w.compensateKnownImportLosses(shadow)
 	w.compareShadow(shadow, "right-after-import")
 	return shadow
+}
+
+// compensateKnownImportLosses: two losses of the genesis round trip are known findings
+// (DESIGN.md section 11).  Each is recognised by its exact condition, reported under its own
+// signature, and then repaired on the re-imported branch, so that every OTHER difference between
+// the branches — right after the import or at any later step — is still reported.
+//  - F-C18-2: GenesisState has no field for the rebalance flag; a queued rebalance is lost.
+//  - F-C18-1: redelegation records are keyed without the source validator; records of two sources
+//    merge, and InitGenesis rebuilds the per-source index for the source stored in the record only.
+func (w *World) compensateKnownImportLosses(shadow *World) {
+	k := w.App.AllianceKeeper
+	if w.flagSet() && !shadow.flagSet() {
+		w.monitor("C18", "rebalance-flag-lost-on-reimport")
+		_ = k.QueueAssetRebalanceEvent(shadow.Ctx)
+	}
+	type idx struct {
+		src, denom, dst, del int64
+		ct                   string
+	}
+	parse := func(ls []string) []idx {
+		var out []idx
+		for _, l := range ls {
+			var i idx
+			if n, _ := fmt.Sscanf(l, "8 %d %s %d %d %d", &i.src, &i.ct, &i.denom, &i.dst, &i.del); n == 5 {
+				out = append(out, i)
+			}
+		}
+		return out
+	}
+	a := parse(w.DumpState(w.Ctx))
+	b := parse(shadow.DumpState(shadow.Ctx))
+	have := map[idx]bool{}
+	for _, i := range b {
+		have[i] = true
+	}
+	for _, i := range a {
+		if have[i] {
+			continue
+		}
+		merged := false
+		for _, j := range a {
+			if j != i && j.ct == i.ct && j.denom == i.denom && j.dst == i.dst && j.del == i.del && j.src != i.src {
+				merged = true
+			}
+		}
+		if !merged {
+			continue // not the known loss: left for compareShadow to report
+		}
+		w.monitor("C18", "merged-redelegation-source-index-lost-on-reimport")
+		var ns int64
+		fmt.Sscan(i.ct, &ns)
+		key := types.GetRedelegationIndexKey(w.ValAddr(i.src), nsToTime(ns), denomName(i.denom), w.ValAddr(i.dst), w.AccAddr(i.del))
+		st := k.StoreService().OpenKVStore(shadow.Ctx)
+		_ = st.Set(key, []byte{})
+	}
 }
 
 // compareShadow compares what is observable of both branches: primary records and
